@@ -1,13 +1,9 @@
-import Corankco.Spec.C02
+import Corankco.Lemmas.C02
 /-
   C02 — property theorems (helper lemmas live in Lemmas/).
 -/
 namespace Corankco
 open Model
-
-theorem getD_range_map {α : Type} (f : Nat → α) (n i : Nat) (d : α) (h : i < n) :
-    ((List.range n).map f).getD i d = f i := by
-  simp [List.getD, h]
 
 /-- Mirror law of the table the code builds, for every scheme and every position matrix:
     `before(i,j) = after(j,i)` and `tied(i,j) = tied(j,i)`. -/
@@ -24,5 +20,41 @@ theorem C02_mirror (S : Scheme) (pos : List (List Int)) (i j : Nat)
   · subst h; simp
   · have h' : ¬ i < j := by omega
     simp [h, h', Cost.swap]
+
+/-- NOT A THEOREM without a hypothesis on `S`: the statement
+    `∀ S D, costMatrix S (getPositions D) = Spec.specTable S D` is false.
+    The code mirrors the lower triangle from the upper one, so its `tied` entry at `(y, x)` is
+    `tied x y`; the definition's is `tied y x`, and these differ as soon as `t0 ≠ t1` (or `t3 ≠ t4`). -/
+example : ¬ ∀ (S : Scheme) (D : Dataset), costMatrix S (getPositions D) = Spec.specTable S D :=
+  fun h => absurd (h ⟨0, 1, 0, 0, 0, 0, 0, 1, 0, 0, 0, 0⟩ [[[0], [1]]]) (by decide)
+
+/-- The table the code builds from the position matrix is the table of the definition,
+    for every valid scheme (only `t0 = t1` and `t3 = t4` are used, see
+    `costMatrix_rankFn_eq_specTable`). -/
+theorem C02_def (S : Scheme) (hS : S.Valid) (D : Dataset) :
+    costMatrix S (getPositions D) = Spec.specTable S D :=
+  costMatrix_rankFn_eq_specTable rankFn_posIn S hS.2.2.2.2.2.2.2.2.2.2.2.2.2.2.2.1
+    hS.2.2.2.2.2.2.2.2.2.2.2.2.2.2.2.2.2 D
+
+/-- Positions and bucket ids give the same table. -/
+theorem C02_pos_eq_bid (S : Scheme) (D : Dataset) :
+    costMatrix S (getPositions D) = costMatrix S (getBucketIds D) :=
+  costMatrix_rankFn_congr rankFn_posIn rankFn_bidIn S D
+
+/-- For every complete candidate the entries selected by its pairwise placements add up to its Kemeny score. -/
+theorem C02_sum (S : Scheme) (hS : S.Valid) (D : Dataset) (c : Ranking)
+    (hc : c.flatten.Perm (univOf D)) :
+    scoreVec (Spec.specTable S D) (vecOf (univOf D) c) = Spec.kemeny S D c := by
+  rw [scoreVec_specTable,
+    kemeny_eq_isum_pairs S hS.2.2.2.2.2.2.2.2.2.2.2.2.2.2.2.1 hS.2.2.2.2.2.2.2.2.2.2.2.2.2.2.2.2.2 D c _ hc]
+
+/-- Non-vacuity of `C02_sum`: a 3-element dataset with a tie (`{0,1}`) and an unranked element
+    (`1` in the second ranking), a valid non-preset scheme, a complete candidate with a tie. -/
+example :
+    let S : Scheme := ⟨0, 2, 1, 1, 3, 1, 2, 2, 0, 3, 3, 1⟩
+    let D : Dataset := [[[0, 1], [2]], [[2], [0]]]
+    let c : Ranking := [[2, 0], [1]]
+    S.Valid ∧ univOf D = [0, 1, 2] ∧ c.flatten.Perm (univOf D) := by
+  decide
 
 end Corankco
